@@ -355,6 +355,52 @@ def judge_root(ctx, sut, rng, root, model_schema, case, extra_values=()):
     return lines
 
 
+def annotation_work(ctx, sut, only=None):
+    """Generating the annotations of a model is part of generating its module: the work for arrays nested in
+    arrays (and tuples, and compositions in between) must grow with the depth, not multiply per level. Judged
+    in entries into the annotation routines per request (sys.monitoring), never on the clock."""
+    from statham.schema.elements.array import Array  # pylint: disable=import-outside-toplevel
+    from statham.schema.elements.composition import CompositionElement  # pylint: disable=import-outside-toplevel
+    from vlib import monitors  # pylint: disable=import-outside-toplevel
+
+    shapes = [("items", 12), ("tuple", 10), ("anyof_items", 8)]
+    for number, (shape, depth) in enumerate(shapes):
+        if only is None and number % ctx.nshards != ctx.shard:
+            continue
+        if only is not None and shape != only:
+            continue
+        schema = {"type": "integer"}
+        for _ in range(depth):
+            if shape == "items":
+                schema = {"type": "array", "items": schema}
+            elif shape == "tuple":
+                schema = {"type": "array", "items": [schema, {"type": "string"}], "additionalItems": False}
+            else:
+                schema = {"type": "array", "items": {"anyOf": [schema, {"type": "null"}]}}
+        doc = {"type": "object", "title": "Deep" + shape.title().replace("_", ""), "properties": {"a": schema}}
+        try:
+            root = sut.parse_direct(copy.deepcopy(doc))
+        except Exception as exc:  # pylint: disable=broad-except
+            ctx.count("parse_failed." + type(exc).__name__)
+            continue
+        functions = {"array.annotation": Array.annotation.fget, "array.items": Array.item_annotations.fget,
+                     "composition.annotation": CompositionElement.annotation.fget}
+        with monitors.CallCounter(functions) as counter:
+            try:
+                sut.serialize_python(root)
+            except Exception as exc:  # pylint: disable=broad-except
+                ctx.count("annotation_work.serialize_failed." + type(exc).__name__)
+        entries = sum(counter.calls.values())
+        ctx.evaluation()
+        ctx.count("annotation_work.measured")
+        ctx.count("annotation_work.entries", entries)
+        budget = 40 * (depth + 2)
+        if entries > budget:
+            ctx.witness("annotation_work_not_bounded", {"annotation_work": shape},
+                        f"generating the module of an array nested {depth} levels ({shape}) entered the annotation "
+                        f"routines {entries} times (linear budget {budget}): the work multiplies per level")
+
+
 VOCABULARY_TITLES = ["ListOptions", "ListItem", "UnionJack", "MaybeNot", "AnyThing", "DictLike", "Listing", "OptionalExtra"]
 
 
@@ -453,6 +499,9 @@ def run_shard(ctx):
 def replay(case, ctx):
     from vlib import sut  # pylint: disable=import-outside-toplevel
 
+    if "annotation_work" in case:
+        annotation_work(ctx, sut, only=case["annotation_work"])
+        return
     if "shared_property" in case:
         from vlib.checks.c04 import shared_property_owners  # pylint: disable=import-outside-toplevel
 
